@@ -595,6 +595,13 @@ pub fn triggers(src: &str, root: &SyntaxNode) -> Vec<&'static str> {
             // R63: parentheses around a string used as dictionary key are removed; the key then is a
             // literal key and two equal ones are a syntax error (`(("k"): 1, ("k"): 1)`)
             K::Keyed if f.node.children().next().is_some_and(|c| c.kind() == K::Parenthesized && syn::any_node(c, &mut |x| x.kind() == K::Str)) => add("R63"),
+            // R72: a White_Space character other than space / tab is text in markup; when it is the last
+            // character of a markup line the final strip pass removes it (C11 asks for exactly that, C01 / C08
+            // for the opposite)
+            K::Text if f.node.text().chars().last().is_some_and(|c| c.is_whitespace() && !c.is_ascii()) => add("R72"),
+            // R73: a comment directly behind a list / enum / term marker (the body starts with it): a blank is
+            // put after the comment, so the body starts with a space element; only `repr` of the content shows it
+            K::ListItem | K::EnumItem | K::TermItem if f.node.children().any(|c| syn::is_comment(c.kind())) => add("R73"),
             // R12: a comment directly inside a heading (between marker and body)
             K::Heading
                 if f.node.children().any(|c| {
